@@ -94,6 +94,60 @@ def split_goal(goal, limit=48):
     return out
 
 
+def ground_terms(formulas, limit=10):
+    """ground subterms of sort Key / Int occurring in the formulas (outside quantifiers), smallest first"""
+    found = {}
+    seen = set()
+    stack = list(formulas)
+    while stack:
+        t = stack.pop()
+        if t.get_id() in seen or z3.is_quantifier(t):
+            continue
+        seen.add(t.get_id())
+        if z3.is_app(t):
+            srt = t.sort()
+            if (srt == sym.KeyS or srt == z3.IntSort()) and not z3.is_int_value(t):
+                found[t.get_id()] = t
+            stack.extend(t.children())
+    by_sort = {}
+    for t in sorted(found.values(), key=lambda x: len(str(x))):
+        lst = by_sort.setdefault(str(t.sort()), [])
+        if len(lst) < limit:
+            lst.append(t)
+    return by_sort
+
+
+def instantiate_at_goal(hyps, goal_parts, cap=400):
+    """sound helper: instances of the universally quantified hypotheses at the ground Key/Int terms of the goal
+    (skolem constants first).  Consequences of the hypotheses only - used to spare the solver the E-matching."""
+    terms = ground_terms(goal_parts)
+    if not terms:
+        return []
+    out = []
+    for h in hyps:
+        if len(out) >= cap:
+            break
+        if not (z3.is_quantifier(h) and h.is_forall()):
+            continue
+        nv = h.num_vars()
+        if nv > 2:
+            continue
+        cands = [terms.get(str(h.var_sort(i)), []) for i in range(nv)]
+        if any(not c for c in cands):
+            continue
+        import itertools as _it
+        for combo in _it.islice(_it.product(*cands), 36):
+            try:
+                out.append(z3.substitute_vars(h.body(), *reversed(combo)))
+            except z3.Z3Exception:
+                pass
+    return out
+
+
+COUNTER_NAMES = ['model', 'loss', 'random.random', 'random.randrange', 'random.randint', 'np.random.permutation',
+                 'np.random.normal', 'random.choices', 'impute', 'storage_update']
+
+
 class Explorer:
     def __init__(self):
         self.decisions = []
@@ -192,6 +246,18 @@ class Run:
         self.fault_count = 0
         self.cur_line = 0
         self._feas = None
+        self.counters = {}
+        self.last_loop = None
+
+    # ---- event counters (ghost) ------------------------------------------------------------------
+    def counter(self, name):
+        return self.counters.get(name, z3.IntVal(0))
+
+    def bump(self, name, by=1):
+        if by is None:
+            self.counters[name] = z3.Int(fresh_name('cnt_' + name))   # unknown number of events
+            return
+        self.counters[name] = z3.simplify(self.counter(name) + by)
 
     # ---- path condition / choice ---------------------------------------------------------------
     def assume(self, *facts):
@@ -283,6 +349,16 @@ class Run:
                 out += t.wf(pack(fv))
         return out
 
+    def clause(self, name, f, ctx):
+        """evaluate a contract clause; a clause that cannot be evaluated on this path (the event structure differs
+        from what the contract expects, a bound name is gone) makes the verdict undecided, never a violation"""
+        try:
+            return f(ctx)
+        except (Unsupported, PyRaise, PathEnd):
+            raise
+        except Exception as ex:   # noqa
+            raise Unsupported(f"clause {name} cannot be evaluated at line {self.cur_line}: {type(ex).__name__}: {ex}")
+
     def oblige(self, oid, goal, **meta):
         if isinstance(goal, (list, tuple)):
             goal = z3.And(*goal) if goal else z3.BoolVal(True)
@@ -298,7 +374,8 @@ class Run:
             m = dict(meta)
             m['piece'] = i
             m['whole_goal'] = goal
-            self.obligations.append(Obligation(oid, self.pc + extra, g, m))
+            inst = instantiate_at_goal(self.pc + extra, [g] + extra)
+            self.obligations.append(Obligation(oid, self.pc + extra + inst, g, m))
 
     # ---- statements --------------------------------------------------------------------------------
     def exec_block(self, stmts):
@@ -435,6 +512,7 @@ class Run:
         entry_self = snapshot(self.self_obj) if self.self_obj is not None else None
         ghosts = {}
         lc = LoopCtx(self, it, entry_env, entry_self, ghosts)
+        lc.entry_counters = dict(self.counters)
         # ghost initial values, iteration ghost at "nothing visited"
         if it.kind == 'seq':
             lc.i = z3.IntVal(0)
@@ -443,12 +521,14 @@ class Run:
         for g, (gt, ginit, gstep) in lspec.ghosts.items():
             ghosts[g] = gt.wrap(_term(ginit(lc)))
         for cname, f in lspec.inv.items():
-            self.oblige(f"{fkey}/loop{ordinal}/established/{cname}", f(lc), kind='loop_established',
+            self.oblige(f"{fkey}/loop{ordinal}/established/{cname}", self.clause(cname, f, lc), kind='loop_established',
                         clause=cname, function=fkey)
         # havoc
         roots = lspec.modifies if lspec.modifies is not None else modified_roots(s)
         for r in roots:
             self.havoc_root(r)
+        for cn in COUNTER_NAMES:
+            self.counters[cn] = z3.Int(fresh_name('cnt_' + cn.replace('.', '_')))
         if it.kind == 'seq':
             i = z3.Int(fresh_name('it'))
             self.pc += [i >= 0, i <= it.n]
@@ -475,6 +555,8 @@ class Run:
                 lc.elem_key = k
                 lc.elem = elem
             self.assign(s.target, elem)
+            lc.iter_counters = dict(self.counters)
+            lc.iter_events = len(self.events)
             if lspec.lemmas:
                 lc.phase = 'body'
             try:
@@ -483,6 +565,9 @@ class Run:
                 pass
             except BreakSig:
                 raise Unsupported("break in a loop under an invariant")
+            for cname, f in lspec.body.items():
+                self.oblige(f"{fkey}/loop{ordinal}/body/{cname}", self.clause(cname, f, lc), kind='loop_body', clause=cname,
+                            function=fkey)
             # step the ghosts
             new_ghosts = {}
             for g, (gt, ginit, gstep) in lspec.ghosts.items():
@@ -495,7 +580,7 @@ class Run:
             if lspec.lemmas:
                 self.assume(*lspec.lemmas(lc))
             for cname, f in lspec.inv.items():
-                self.oblige(f"{fkey}/loop{ordinal}/preserved/{cname}", f(lc), kind='loop_preserved',
+                self.oblige(f"{fkey}/loop{ordinal}/preserved/{cname}", self.clause(cname, f, lc), kind='loop_preserved',
                             clause=cname, function=fkey)
             raise PathEnd()
         # exit
@@ -1160,6 +1245,8 @@ class Run:
                 key = self.resolve_method(recv.cls, f.name)
                 if key is None:
                     raise Unsupported(f"method {recv.cls}.{f.name}")
+                if FUNCS[key].kind == 'static':
+                    return self.call_contract(FUNCS[key], None, args, kwargs)
                 return self.call_contract(FUNCS[key], recv, args, kwargs)
             return pylib.call_method(self, recv, f.name, args, kwargs, node)
         if isinstance(f, ClassRef):
@@ -1241,7 +1328,7 @@ class Run:
         a0 = {k: (snapshot(v) if isinstance(v, SV) else v) for k, v in a.items()}
         cpre = Ctx(old=ObjView(old) if old is not None else None, new=None, a=NS(a0), run=self)
         for cname, f in fs.requires.items():
-            self.oblige(f"{self.fspec.key}/call:{fs.key}/pre/{cname}", f(cpre), kind='call_pre', clause=cname,
+            self.oblige(f"{self.fspec.key}/call:{fs.key}/pre/{cname}", self.clause(cname, f, cpre), kind='call_pre', clause=cname,
                         function=self.fspec.key, callee=fs.key)
         # exceptional outcomes allowed by the contract
         for exc, r in fs.raises.items():
@@ -1275,8 +1362,12 @@ class Run:
             res = self.fresh(fs.ret, 'res_' + fs.func_name)
         else:
             res = NONE
+        gout = {g: self.fresh(gt, 'gout_' + g) for g, (gt, gdef) in fs.ghost_out.items()}
         c = Ctx(old=ObjView(old) if old is not None else None, new=ObjView(recv) if recv is not None else None,
-                a=NS(a0), res=view(res), run=self, a_new=NS(a))
+                a=NS(a0), res=view(res), run=self, a_new=NS(a), gout=NS(gout))
+        for cn, f in fs.counts.items():
+            self.bump(cn, _term(f(c)))
+        self.last_gout = gout
         if fs.ghost_update is not None and recv is not None:
             for g, term in fs.ghost_update(c).items():
                 gt = recv.spec().all_fields()[g]
@@ -1387,6 +1478,21 @@ class LoopCtx:
     @property
     def events(self):
         return self.run.events
+
+    @property
+    def body_events(self):
+        """events of the current (arbitrary) iteration"""
+        return self.run.events[self.iter_events:]
+
+    def cnt(self, name):
+        return self.run.counter(name)
+
+    def entry_cnt(self, name):
+        return self.entry_counters.get(name, z3.IntVal(0))
+
+    def iter_cnt(self, name):
+        """events of that kind during the current iteration"""
+        return self.run.counter(name) - self.iter_counters.get(name, z3.IntVal(0))
 
 
 # ------------------------------------------------------------------------------------------------
